@@ -2,6 +2,7 @@ package gen
 
 import (
 	"fmt"
+	"strings"
 
 	"github.com/paulmach/orb"
 	"github.com/paulmach/orb/encoding/mvt"
@@ -221,10 +222,23 @@ func PropValue(s *core.Source) interface{} {
 	}
 }
 
+var longKeys = []string{strings.Repeat("k", 127), strings.Repeat("k", 128), strings.Repeat("key-", 70), strings.Repeat("x", 17000)}
+
 // Props draws a property map.
 func Props(s *core.Source) geojson.Properties {
 	p := geojson.Properties{}
-	s.Repeat(0, 2, 6, "prop", func(int) { p[keyPool[s.Intn(len(keyPool), "key")]] = PropValue(s) })
+	s.Repeat(0, 2, 6, "prop", func(int) {
+		k := keyPool[s.Intn(len(keyPool), "key")]
+		if s.Chance(1, 40, "longkey") {
+			// keys and values whose length needs a 2- or 3-byte varint prefix
+			k = longKeys[s.Intn(len(longKeys), "lk")]
+		}
+		v := PropValue(s)
+		if s.Chance(1, 60, "longval") {
+			v = strings.Repeat("v", []int{127, 128, 300, 20000}[s.Intn(4, "lv")])
+		}
+		p[k] = v
+	})
 	return p
 }
 
